@@ -25,6 +25,9 @@ Limit0 == {0}
 Limits03 == {0, 1, 2, 3}
 Limits05 == {0, 1, 2, 3, 4, 5}
 Limits07 == {0, 1, 2, 3, 4, 5, 6, 7}
+Org0 == {0}
+\* the default organisation and one other tenant
+Org07 == {0, 7}
 M1 == {1}
 \* 12 tied victims: more than one bucket of the Go map the pass iterates (deletion order differs from list order)
 M1_12 == {1, 12}
